@@ -553,6 +553,20 @@ func (c *Ctx) plySpecCaseEP(s plySpec, holdsOp string, fullEntries bool) {
 	} else {
 		c.Emit("c08.encode", st, plyHx(data))
 	}
+	c.plySpecFile(st, data, holdsOp, fullEntries)
+	c.plyHeaderCuts("c08.holds.header_cut_rejected", data)
+	// the same ASCII file as other tools end it: last record without line terminator, CR LF line ends in the body, a lone CR
+	// at the end, a blank line at the end — the file describes the same mesh
+	if s.format == "ascii" && c.Rng.Intn(2) == 0 {
+		if v, name := plyAsciiTailVariant(data, c.Rng.Intn(5)); v != nil {
+			c.Note("ascii-tail:" + name)
+			c.plySpecFile(st, v, holdsOp, false)
+		}
+	}
+}
+
+// header / read correspondences, the meaning oracle and the entry points for one file that encodes the specification `st`
+func (c *Ctx) plySpecFile(st string, data []byte, holdsOp string, fullEntries bool) {
 	c.Emit("c08.header", plyHx(data), plyImplReadHeader(data))
 	rs, _ := plyImplReadMesh(data)
 	c.Emit("c08.read", plyHx(data), rs)
@@ -560,7 +574,79 @@ func (c *Ctx) plySpecCaseEP(s plySpec, holdsOp string, fullEntries bool) {
 	// the file loads to the same mesh through every public entry point and reader type
 	c.Emit("c08.holds.entrypoints_agree", rs+" | "+plyEntryResults(data, fullEntries), "true")
 	c.Emit("c08.holds.header_entrypoints_agree", plyHeaderEntryResults(data), "true")
-	c.plyHeaderCuts("c08.holds.header_cut_rejected", data)
+}
+
+// an ASCII file with a non-empty body, its body re-terminated the way other tools do (nil: no body to vary)
+func plyAsciiTailVariant(data []byte, k int) ([]byte, string) {
+	end := plyEndHeaderAt(data)
+	if end < 0 {
+		return nil, ""
+	}
+	nl := bytes.IndexByte(data[end:], '\n')
+	if nl < 0 {
+		return nil, ""
+	}
+	hdr, body := data[:end+nl+1], data[end+nl+1:]
+	if len(body) == 0 || body[len(body)-1] != '\n' {
+		return nil, ""
+	}
+	crlf := bytes.ReplaceAll(body, []byte("\n"), []byte("\r\n"))
+	var b []byte
+	var name string
+	switch k {
+	case 0:
+		b, name = body[:len(body)-1], "no-final-newline"
+	case 1:
+		b, name = crlf, "crlf"
+	case 2:
+		b, name = crlf[:len(crlf)-2], "crlf-no-final-newline"
+	case 3:
+		b, name = crlf[:len(crlf)-1], "crlf-final-cr-only"
+	default:
+		b, name = append(append([]byte{}, body...), '\n'), "blank-last-line"
+	}
+	return append(append([]byte{}, hdr...), b...), name
+}
+
+// a BINARY file whose last byte has the value of a white space character (0x09–0x0D, 0x20): the end of a binary file is
+// data — last face index 9…13 / 32 (big-endian), last colour byte, last byte of a float
+func (c *Ctx) plySpecWsTail(kind int) plySpec {
+	ws := []int{9, 10, 11, 12, 13, 32}
+	w := ws[c.Rng.Intn(len(ws))]
+	xyz := []plySpecProp{{"x", "float", false}, {"y", "float", false}, {"z", "float", false}}
+	switch kind {
+	case 0: // big-endian, the last corner of the last face is vertex w
+		s := plySpec{format: "be", vprops: xyz}
+		for i := 0; i < 33+c.Rng.Intn(4); i++ {
+			s.verts = append(s.verts, []float64{float64(i), float64(i) / 8, -float64(i)})
+		}
+		fe := &plySpecFaceElem{cntTy: "uchar", idxTy: "int", short: c.Rng.Intn(2) == 0}
+		for f := 1 + c.Rng.Intn(3); f > 0; f-- {
+			fe.faces = append(fe.faces, plySpecFace{verts: []int{c.Rng.Intn(33), c.Rng.Intn(33), c.Rng.Intn(33)}})
+		}
+		fe.faces[len(fe.faces)-1].verts[2] = w
+		s.face = fe
+		return s
+	case 1: // either endianness, a record ending in uchar red green blue, the last vertex has blue = w
+		s := plySpec{format: []string{"le", "be"}[c.Rng.Intn(2)], vprops: append(append([]plySpecProp{}, xyz...),
+			plySpecProp{"red", "uchar", false}, plySpecProp{"green", "uchar", false}, plySpecProp{"blue", "uchar", false})}
+		for i := 0; i < 1+c.Rng.Intn(5); i++ {
+			s.verts = append(s.verts, []float64{float64(i), 2, 3, float64(c.Rng.Intn(256)), float64(c.Rng.Intn(256)), float64(c.Rng.Intn(256))})
+		}
+		s.verts[len(s.verts)-1][5] = float64(w)
+		return s
+	default: // big-endian float whose lowest mantissa byte is w; little-endian float whose highest byte is w (tiny value)
+		s := plySpec{format: []string{"le", "be"}[c.Rng.Intn(2)], vprops: xyz}
+		for i := 0; i < 1+c.Rng.Intn(4); i++ {
+			s.verts = append(s.verts, []float64{float64(i), 2, 3})
+		}
+		bits := uint32(0x3f800000) | uint32(c.Rng.Intn(1<<15))<<8 | uint32(w)
+		if s.format == "le" {
+			bits = uint32(w)<<24 | uint32(c.Rng.Intn(1<<24))
+		}
+		s.verts[len(s.verts)-1][2] = float64(math.Float32frombits(bits))
+		return s
+	}
 }
 
 // a large file with values tagged by the vertex number, so that a displaced, repeated or dropped record is visible:
@@ -653,6 +739,32 @@ func runC08(c *Ctx) {
 	}
 	for _, l := range larges {
 		c.plySpecCaseEP(c.plySpecLarge(l.format, l.nv, l.nf), "c08.holds.meaning", false)
+	}
+	// ASCII body line-end conventions of other tools (every variant once on a fixed file, then at random in the loop) and
+	// binary files whose last byte has a white-space value
+	{
+		s := plySpec{format: "ascii", vprops: xyz, verts: [][]float64{{1, 2, 3}, {4, 5, 6}, {7, 8, 9.5}},
+			face: &plySpecFaceElem{cntTy: "uchar", idxTy: "int", faces: []plySpecFace{{verts: []int{0, 1, 2}}, {verts: []int{2, 1, 0}}}}}
+		data := plyRefEncode(s)
+		for k := 0; k < 5; k++ {
+			v, name := plyAsciiTailVariant(data, k)
+			c.Note("ascii-tail:" + name)
+			c.plySpecFile(plySpecTok(s), v, "c08.holds.meaning", k == 0)
+		}
+		s.face = nil
+		data = plyRefEncode(s)
+		for k := 0; k < 5; k++ {
+			v, _ := plyAsciiTailVariant(data, k)
+			c.plySpecFile(plySpecTok(s), v, "c08.holds.meaning", false)
+		}
+	}
+	nTail := 6
+	if c.Tier == "thorough" {
+		nTail = 60
+	}
+	for k := 0; k < nTail; k++ {
+		c.Note("binary-tail:white-space-byte")
+		c.plySpecCaseEP(c.plySpecWsTail(k%3), "c08.holds.meaning", k < 3)
 	}
 	for k := 0; k < c.N; k++ {
 		c.plySpecCaseEP(c.plySpecGen(), "c08.holds.meaning", k%4 == 0)
